@@ -260,6 +260,8 @@ def vc_match(prog, expand=False, same_path=False, width=False):
             reset = any(e.kind == 'setattr' and e.attr == 'early_stop_idx' for e in ctx.events)
             stopped0 = False if (esi is None or not reset) else eq(to_z3(esi), z3.IntVal(0))
             g.append(('result:empty-only-if-no-admissible-first-candidate', zor(no_start, stopped0)))
+            # a matcher may be reused: the early stop of an EARLIER trace must not survive this call either
+            g.append(('result:early_stop_idx-reset-on-every-call', b2z(reset)))
         else:
             g.append(('result:states-are-the-built-node-path', b2z(len(builds) == 1 and states is st.get('np'))))
             if len(builds) == 1:
